@@ -1842,7 +1842,7 @@ impl RdfExpressionPredicate {
                     }
                 }
                 match (left, right) {
-                    (Value::Int64(l), Value::Int64(r)) => Some(Value::Int64(l + r)),
+                    (Value::Int64(l), Value::Int64(r)) => l.checked_add(*r).map(Value::Int64),
                     (Value::Float64(l), Value::Float64(r)) => Some(Value::Float64(l + r)),
                     (Value::Int64(l), Value::Float64(r)) => Some(Value::Float64(*l as f64 + r)),
                     (Value::Float64(l), Value::Int64(r)) => Some(Value::Float64(l + *r as f64)),
@@ -1864,7 +1864,7 @@ impl RdfExpressionPredicate {
                     }
                 }
                 match (left, right) {
-                    (Value::Int64(l), Value::Int64(r)) => Some(Value::Int64(l - r)),
+                    (Value::Int64(l), Value::Int64(r)) => l.checked_sub(*r).map(Value::Int64),
                     (Value::Float64(l), Value::Float64(r)) => Some(Value::Float64(l - r)),
                     (Value::Int64(l), Value::Float64(r)) => Some(Value::Float64(*l as f64 - r)),
                     (Value::Float64(l), Value::Int64(r)) => Some(Value::Float64(l - *r as f64)),
@@ -1885,7 +1885,7 @@ impl RdfExpressionPredicate {
                     }
                 }
                 match (left, right) {
-                    (Value::Int64(l), Value::Int64(r)) => Some(Value::Int64(l * r)),
+                    (Value::Int64(l), Value::Int64(r)) => l.checked_mul(*r).map(Value::Int64),
                     (Value::Float64(l), Value::Float64(r)) => Some(Value::Float64(l * r)),
                     (Value::Int64(l), Value::Float64(r)) => Some(Value::Float64(*l as f64 * r)),
                     (Value::Float64(l), Value::Int64(r)) => Some(Value::Float64(l * *r as f64)),
@@ -1906,7 +1906,7 @@ impl RdfExpressionPredicate {
                     }
                 }
                 match (left, right) {
-                    (Value::Int64(l), Value::Int64(r)) if *r != 0 => Some(Value::Int64(l / r)),
+                    (Value::Int64(l), Value::Int64(r)) if *r != 0 => l.checked_div(*r).map(Value::Int64),
                     (Value::Float64(l), Value::Float64(r)) if *r != 0.0 => {
                         Some(Value::Float64(l / r))
                     }
@@ -1928,7 +1928,7 @@ impl RdfExpressionPredicate {
                 }
             }
             BinaryFilterOp::Mod => match (left, right) {
-                (Value::Int64(l), Value::Int64(r)) if *r != 0 => Some(Value::Int64(l % r)),
+                (Value::Int64(l), Value::Int64(r)) => l.checked_rem(*r).map(Value::Int64),
                 _ => None,
             },
             BinaryFilterOp::Contains => match (left, right) {
@@ -1987,7 +1987,7 @@ impl RdfExpressionPredicate {
             UnaryFilterOp::IsNull => Some(Value::Bool(val.is_none())),
             UnaryFilterOp::IsNotNull => Some(Value::Bool(val.is_some())),
             UnaryFilterOp::Neg => match val? {
-                Value::Int64(v) => Some(Value::Int64(-v)),
+                Value::Int64(v) => v.checked_neg().map(Value::Int64),
                 Value::Float64(v) => Some(Value::Float64(-v)),
                 _ => None,
             },
